@@ -43,7 +43,7 @@ def validate(pid, traces, tag, V, shards=6):
             small = {"history": h["key"], "step": l, "op": ev.get("op"), "outcome": ev.get("o"), "why": why,
                      "quotes": [(q["l"], q["r"], q.get("kind")) for q in ev.get("quotes", [])][:14], "order_before": st.get("order")}
             hcut = dict(h, ev=h["ev"][:l])
-            V.add(key, "history %s rejected by FXRates.tla at step %d (%s): %s" % (h["key"], l, v["name"], json.dumps(small)), {"engine": "fx", "event": hcut})
+            V.add(key, "history %s rejected by FXRates.tla at step %d (%s): %s" % (h["key"], l, v["name"], json.dumps(small)), {"engine": "fx", "event": hcut}, src=p)
     return hist, steps
 
 
